@@ -379,3 +379,16 @@ package commitlog
 
 // Of two successful conditional appends with the same expected offset (no truncation in between) at most one wins.
 //@ lemma atMostOneWinner serves C16: forall n1 int64, m1 int64, n2 int64, m2 int64, e int64 :: e != -1 && (e == n1 && m1 == n1 + 1) && n2 >= m1 && (e == n2 && m2 == n2 + 1) ==> false
+
+// ---------------------------------------------------------------------------------------------
+// High watermark (property C03): while a log is open its HW never moves backwards
+//@ func (*commitLog).SetHighWatermark serves C03, C02
+//@   requires l != nil
+//@   ensures [monotone] l.hw == (hw > old(l.hw) ? hw : old(l.hw))
+//@ func (*commitLog).HighWatermark serves C03
+//@   requires l != nil
+//@   modifies nothing
+//@   ensures result == l.hw
+// the only writers of the HW: the monotone setter, recovery (open), the constructor and the test-only override
+//@ writers commitLog.hw serves C03: (*commitLog).SetHighWatermark, (*commitLog).OverrideHighWatermark, (*commitLog).open, New
+//@ callers (*commitLog).OverrideHighWatermark serves C03:
